@@ -75,6 +75,8 @@ def Conv.admitsKind : Conv → Val.Kind → Bool
   | .datetime ty, k =>
     k == .str || (Val.isDtName ty && k == .opaque ty) ||
     ((ty == "date" || ty == "time") && k == .opaque "datetime") || (ty == "datetime" && k == .opaque "date")
+  /- `ValueOrList[T]`: what `T` admits, plus the real sequences (`data_is_sequence`) -/
+  | .vol c, k => c.admitsKind k || k == .list || k == .tuple || k == .deque
   | _, _ => true
 
 /-- the kinds the table is checked on, cell by cell -/
